@@ -12,6 +12,11 @@ C20 driver: one scenario per line, the model's prediction of the canonical resul
   opts   comma separated; `reaped` = the child is reaped by somebody else before compio waits (the wait
          fails with ECHILD: `st=lost`); everything else is harness-only
 
+  pipe <drv> <out2in|in2out> <scriptA> <scriptB> <opts>
+    a pipeline `A | B` (A's stdout is B's stdin, handed over through compio's `TryFrom<…> for Stdio`; the
+    direction only says which handle was converted). Prediction = composition of the denotations:
+    `ok out=<len>:<fnv64 of what B writes to stdout> a=<status of A> b=<status of B>`.
+
 Answer: `ok out=<len>:<fnv64> err=<len>:<fnv64> sunk=<n> w=<ok|epipe|racy> st=<code:N|sig:N>` | `deadlock` | `loose`.
 -/
 import Compio.Model.ChildIo
@@ -106,6 +111,15 @@ def step (_ : Unit) (line : String) : Unit × String :=
                            pidfd := route = "pidfd", plan }
           answer c script (payloadOf len seed) (stdin = "null") ((opts.splitOn ",").contains "reaped")
       | _, _, _, _, _, _, _, _, _ => "bad-op"
+    | ["pipe", drv, dir, sa, sb, _opts] =>
+      match parseScript sa, parseScript sb with
+      | some sa, some sb =>
+        if (drv ≠ "uring" ∧ drv ≠ "poll") ∨ (dir ≠ "out2in" ∧ dir ≠ "in2out") ∨ !wfScript sa ∨ !wfScript sb then "bad-op"
+        else
+          let da := denS sa []
+          let db := denS sb da.out
+          s!"ok out={showBytes db.out} a={showStatus da.st} b={showStatus db.st}"
+      | _, _ => "bad-op"
     | _ => "bad-op"
   ((), out)
 
